@@ -1917,14 +1917,23 @@ void XMLReader::refreshRawBuffer()
         fRawByteBuf[index] = fRawByteBuf[fRawBufIndex + index];
 
     //
-    //  And then read into the buffer past the existing bytes. Add back in
-    //  that many to the bytes read, and subtract that many from the bytes
-    //  requested.
+    //  And then read into the buffer past the existing bytes, until the
+    //  buffer is full or the stream is at its end. A stream may deliver
+    //  its bytes in pieces of any size (down to one at a time); what gets
+    //  sensed and decoded from this buffer must not depend on where the
+    //  stream happened to split them.
     //
-    fRawBytesAvail = fStream->readBytes
-    (
-        &fRawByteBuf[bytesLeft], kRawBufSize - bytesLeft
-    ) + bytesLeft;
+    XMLSize_t bytesInBuf = bytesLeft;
+    XMLSize_t bytesRead;
+    do
+    {
+        bytesRead = fStream->readBytes
+        (
+            &fRawByteBuf[bytesInBuf], kRawBufSize - bytesInBuf
+        );
+        bytesInBuf += bytesRead;
+    } while (bytesRead && (bytesInBuf < kRawBufSize));
+    fRawBytesAvail = bytesInBuf;
 
     //
     //  We need to reset the buffer index back to the start in all cases,
